@@ -28,7 +28,6 @@ import (
 	"os"
 	"path/filepath"
 	"runtime"
-	"runtime/pprof"
 	"strings"
 	"sync"
 	"testing"
@@ -520,24 +519,9 @@ func TestVerifWireResponder(t *testing.T) {
 		deadline := time.Now().Add(vwCallTimeout / 2)
 		for runtime.NumGoroutine() > baseline {
 			if time.Now().After(deadline) {
-				var sb bytes.Buffer
-				_ = pprof.Lookup("goroutine").WriteTo(&sb, 2)
-				site := "responder.RecvAndRespond"
-				for _, g := range strings.Split(sb.String(), "\n\n") {
-					if strings.Contains(g, "RecvAndRespond.func1") {
-						ls := strings.Split(g, "\n")
-						for i := 1; i < len(ls); i++ {
-							if !strings.HasPrefix(ls[i], "\t") && !strings.HasPrefix(ls[i], "runtime.") && ls[i] != "" {
-								fn := ls[i]
-								if k := strings.LastIndex(fn, "("); k > 0 {
-									fn = fn[:k]
-								}
-								site = vwShortFn(fn)
-								break
-							}
-						}
-						break
-					}
+				site, _ := vwHangSite("RecvAndRespond.func1")
+				if site == "unknown" {
+					site = "responder.RecvAndRespond"
 				}
 				return site, false
 			}
